@@ -870,6 +870,22 @@ func (e *kvElection) StopWithContext(ctx context.Context, opts StopOptions) erro
 		close(done)
 	}()
 
+	// The leadership term has ended above whatever happens next. If the call
+	// gives up (time-out, cancelled context) before it reaches the regular
+	// OnDemote invocation at the end, the callback still has to run, exactly
+	// once, without making the caller wait any longer.
+	demoteOnGiveUp := func() {
+		if !wasLeader {
+			return
+		}
+		e.mu.RLock()
+		onDemote := e.onDemote
+		e.mu.RUnlock()
+		if onDemote != nil {
+			go onDemote()
+		}
+	}
+
 	select {
 	case <-done:
 	case <-time.After(time.Until(deadline)):
@@ -880,6 +896,7 @@ func (e *kvElection) StopWithContext(ctx context.Context, opts StopOptions) erro
 				zap.Duration("timeout", timeout),
 			)...,
 		)
+		demoteOnGiveUp()
 		return fmt.Errorf("shutdown timeout exceeded: %v", timeout)
 	case <-ctx.Done():
 		<-e.lifecycle
@@ -889,6 +906,7 @@ func (e *kvElection) StopWithContext(ctx context.Context, opts StopOptions) erro
 				zap.Error(ctx.Err()),
 			)...,
 		)
+		demoteOnGiveUp()
 		return ctx.Err()
 	}
 
@@ -934,8 +952,10 @@ func (e *kvElection) StopWithContext(ctx context.Context, opts StopOptions) erro
 					zap.String("phase", "key_deletion"),
 				)...,
 			)
+			demoteOnGiveUp()
 			return fmt.Errorf("shutdown timeout exceeded: %v", timeout)
 		case <-ctx.Done():
+			demoteOnGiveUp()
 			return ctx.Err()
 		}
 		if err != nil {
